@@ -12,7 +12,7 @@ pub type AExprName = rustpython_parser::ast::ExprName;
 pub type Lit = (Seq<char>, TextRange);
 
 // ---- environment inputs (abstract) ------------------------------------------------------------------------
-/// `file_path.to_string_lossy().contains("site-packages") || self.is_editable_install_third_party(file_path)`
+/// `self.is_in_site_packages(file_path) || self.is_editable_install_third_party(file_path)` (units classify)
 pub uninterp spec fn env_third_party(file: PV) -> bool;
 /// `self.plugin_fixture_files.contains_key(file_path)`
 pub uninterp spec fn env_is_plugin(file: PV) -> bool;
